@@ -247,12 +247,21 @@ def commit_tag_argv(cfg_msg_empty: bool, m: str) -> bool:
     saved = (vcs.sp, vcs.tempfile, vcs.os)
     vcs.sp, vcs.tempfile, vcs.os = stub, tf, _Os(tf.rec)
     try:
-        vcs.commit(cfg, vcs.VCSAPI(TOOL), [], "1.2.4", "the commit message", m)
+        # (hg writes the commit message to a log file: that path has its own lemma, hg_commit_logfile)
+        vcs.commit(cfg, vcs.VCSAPI(TOOL), [m + ".txt"], "1.2.4", ("msg " + m) if TOOL == "git" else "msg", m)
     finally:
         vcs.sp, vcs.tempfile, vcs.os = saved
     tags = [c for c in stub.calls if c[:2] == [TOOL, "tag"]]
     if len(tags) != 1:
         return False
+    # the staged path and (git) the commit message travel through the same real API, each as one argument, in order
+    adds = [c for c in stub.calls if c[:2] == [TOOL, "add"]]
+    if len(adds) != 1 or adds[0][-1] != m + ".txt" or stub.calls.index(adds[0]) > stub.calls.index(tags[0]):
+        return False
+    if TOOL == "git":
+        commits = [c for c in stub.calls if c[:2] == ["git", "commit"]]
+        if len(commits) != 1 or not _same(commits[0], ["git", "commit", "--message", "msg " + m]):
+            return False
     if m:
         want = ["git", "tag", "--annotate", "1.2.4", "--message", m] if TOOL == "git" else ["hg", "tag", "1.2.4", "--message", m]
     else:
